@@ -80,11 +80,17 @@ func (e *c07Env) op(line, out string) {
 	}
 }
 
+// c07ABIOverride rewrites the compass ABI governance activates the chain with (nil = the repo's sample ABI).
+var c07ABIOverride func(string) string
+
 func newC07Env(t *testing.T, r *Rec, seed int64) *c07Env { return newC07EnvOpt(t, r, seed, false) }
 
 // newC07EnvOpt: silent = write no op lines at all (the env is driven from another property's test).
 func newC07EnvOpt(t *testing.T, r *Rec, seed int64, silent bool) *c07Env {
 	abiJSON := c05CompassABI(t)
+	if c07ABIOverride != nil {
+		abiJSON = c07ABIOverride(abiJSON)
+	}
 	a, err := abi.JSON(strings.NewReader(abiJSON))
 	if err != nil {
 		t.Fatal(err)
@@ -743,14 +749,22 @@ func (e *c07Env) receipt(txType uint8, status int, withLog bool, variant int) []
 	}
 	if withLog {
 		ev := e.abi.Events["ContractDeployed"]
-		data, err := ev.Inputs.NonIndexed().Pack(common.HexToAddress("0xDE9107ED"), common.HexToAddress("0xD1"), big.NewInt(7))
-		if err != nil {
-			e.t.Fatal(err)
+		topics := []common.Hash{ev.ID}
+		var data []byte
+		if len(ev.Inputs.NonIndexed()) == 3 {
+			var err error
+			data, err = ev.Inputs.NonIndexed().Pack(common.HexToAddress("0xDE9107ED"), common.HexToAddress("0xD1"), big.NewInt(7))
+			if err != nil {
+				e.t.Fatal(err)
+			}
+		} else {
+			// a compass whose event declares its parameters indexed: they travel as topics
+			topics = append(topics, common.BytesToHash(common.HexToAddress("0xDE9107ED").Bytes()), common.BytesToHash(common.HexToAddress("0xD1").Bytes()), common.BigToHash(big.NewInt(7)))
 		}
 		if shape == 3 {
 			data = nil
 		}
-		rc.Logs = append(rc.Logs, &ethtypes.Log{Address: common.HexToAddress("0xC0"), Topics: []common.Hash{ev.ID}, Data: data})
+		rc.Logs = append(rc.Logs, &ethtypes.Log{Address: common.HexToAddress("0xC0"), Topics: topics, Data: data})
 	}
 	if shape == 2 {
 		rc.Logs = append(rc.Logs, &ethtypes.Log{Address: common.HexToAddress("0xC0"), Topics: nil})
@@ -1475,14 +1489,31 @@ func c07Directed(t *testing.T, r *Rec) {
 // histories of the cases in which the attestation loop of the consensus end-blocker panicked (it
 // has no recover, so a panic there is an aborted block). Nothing is written to r's op stream.
 func c07HostileReceipts(t *testing.T, r *Rec) []string {
-	e := newC07EnvOpt(t, r, r.Seed*1000+997, true)
-	for shape := 0; shape < c07LogShapes; shape++ {
-		for _, class := range []string{"dyn", "legacy"} {
-			e.runCase(fmt.Sprintf("hostile receipt shape %d", shape), "usc", &c07Force{logShape: shape, class: class})
+	var out []string
+	// with the repository's compass ABI, and with a compass ABI (set by governance when the chain is
+	// activated) that declares the parameters of ContractDeployed as indexed
+	for _, indexed := range []bool{false, true} {
+		c07ABIOverride = nil
+		if indexed {
+			c07ABIOverride = func(j string) string {
+				i := strings.Index(j, `"name": "ContractDeployed"`)
+				k := strings.LastIndex(j[:i], `"anonymous"`)
+				return j[:k] + strings.ReplaceAll(j[k:i], `"indexed": false`, `"indexed": true`) + j[i:]
+			}
 		}
-		e.fa.NextBlock()
+		e := newC07EnvOpt(t, r, r.Seed*1000+997, true)
+		c07ABIOverride = nil
+		for shape := 0; shape < c07LogShapes; shape++ {
+			for _, class := range []string{"dyn", "legacy"} {
+				e.runCase(fmt.Sprintf("hostile receipt shape %d indexed-event-abi %v", shape, indexed), "usc", &c07Force{logShape: shape, class: class})
+			}
+			e.fa.NextBlock()
+		}
+		for _, p := range e.panics {
+			out = append(out, fmt.Sprintf("(compass ABI with indexed ContractDeployed parameters: %v) %s", indexed, p))
+		}
 	}
-	return e.panics
+	return out
 }
 
 // driveMessage takes message id through estimate, signatures, public access data, evidence and
